@@ -21,6 +21,38 @@ def refusals(ctx, f):
     return out
 
 
+def path_contexts(ctx, f, bb):
+    """Guard atoms of a block, one list per way of reaching it.  When the block (or the straight line leading to it)
+    is a join - one shared `Err(io::Error::new(kind, message))` fed by several arms that each made their own test -
+    the conditions that dominate the block say nothing; what holds on each incoming arm does.  Returns
+    [atoms_at(block)] when the block is not behind a join."""
+    g = guards(ctx, f)
+    from prov import Prov
+    preds = Prov(f)._preds()
+    live = lambda p: not f.blocks[p]["cleanup"] and f.blocks[p]["term"]["t"] != "unreachable"
+    cur, hops = bb, 0
+    while hops < 6:
+        ps = [p for p in preds.get(cur, []) if live(p)]
+        if len(ps) != 1:
+            break
+        cur, hops = ps[0], hops + 1
+    ps = [p for p in preds.get(cur, []) if live(p)]
+    if len(ps) < 2:
+        return [g.atoms_at(("t", bb))]
+    out = []
+    for p in ps:
+        atoms = list(g.atoms_at(("t", p)))
+        t = f.blocks[p]["term"]
+        if t["t"] == "switch":
+            vals = [str(x) for x, _ in t["arms"]] + ["otherwise"]
+            tg = [b_ for _, b_ in t["arms"]] + [t["otherwise"]]
+            for k_, b_ in enumerate(tg):
+                if b_ == cur:
+                    atoms += list(g.describe_all(p, vals[k_], vals))
+        out.append(atoms)
+    return out
+
+
 def err_kinds(ctx):
     """fn path -> set of ErrorKind names the function may construct, transitively."""
     memo = ctx.__dict__.get("_err_kinds")
@@ -163,6 +195,12 @@ def errkind(pid):
                 atoms = g.atoms_at(("t", c.bb))
                 if all(atoms_match(rx, atoms) for rx in row["require"]) and not any(atoms_match(rx, atoms) for rx in row.get("forbid", [])):
                     found.append((c, kind, atoms))
+            if not found:
+                # one shared construction of the error behind a join of several refusing arms: judge each arm
+                for (c, kind) in refusals(ctx, f):
+                    for atoms in path_contexts(ctx, f, c.bb):
+                        if all(atoms_match(rx, atoms) for rx in row["require"]) and not any(atoms_match(rx, atoms) for rx in row.get("forbid", [])):
+                            found.append((c, kind, atoms))
             if not found:
                 res.gone.append(row["function"] + ":" + row["id"])
                 continue
